@@ -157,7 +157,8 @@ EvTx ==
         /\ drift' = drift \cup {<<l, f>> : f \in d}
         /\ ntx' = ntx + 1
         /\ pan' = pan \ r.fired /\ stall' = stall \ r.fired
-        /\ UNCHANGED <<cfgVars, running, veto, nest, atCall, ncalls, callStart>>
+        /\ nest' = NestLeft(o.hlog)
+        /\ UNCHANGED <<cfgVars, running, veto, atCall, ncalls, callStart>>
 
 (* fired faults of the transitions of the current call (lines after callStart) *)
 CallTxLines == {k \in (callStart + 1)..(l - 1) : Trace[k].ev = "tx"}
